@@ -185,8 +185,11 @@ register('C04',
          'many-to-one: the parent\'s as-of version unless deleted or the key is NULL; many-to-many: targets whose newest association '
          'row at or before the owner\'s transaction is not a DELETE, taken as of that transaction, not deleted. Every reflected '
          'relationship (incl. the non-versioned target) is read on every version object of random table contents each run and '
-         'compared with the model and with a positional specification.',
-         COMMON_NOTE + 'Single-column keys/foreign keys; custom primaryjoin shapes are not modelled. The end-to-end reading relies on C01.',
+         'compared with the model and with a positional specification. A quarter of the cases are HISTORIES run on the real code '
+         '(general, many-to-many heavy, children moved between parents): the version tables are those the package wrote, and every '
+         'relationship of every version is additionally compared end to end with the application\'s own tables as they were at the '
+         'commit that ended the version\'s transaction.',
+         COMMON_NOTE + 'Single-column keys/foreign keys; custom primaryjoin shapes are not modelled. States violating the declared foreign keys (SQLite does not enforce them) are not judged end to end.',
          'Coq proof (max/filter characterisations shared with C08) + vm_compute correspondence against the ORM relationship accessors',
          'DESIGN.md §7 C04')
 
